@@ -23,7 +23,9 @@ INFO = {
 MWS = ['gzip', 'cache', 'stats', 'profile', 'cookie', 'ctxproc', 'simplectx', 'getparam', 'postdata', 'scriptroot',
        'ctxproc-names', 'simplectx-names', 'getparam-typed', 'postdata-typed']
 # query strings / form bodies for the parameter extractors: absent, well-formed, unconvertible, empty, repeated, undecodable
-QUERIES = ['', 'zq_n=7&zq_f=2.5&zq_s=x', 'zq_n=abc', 'zq_n=&zq_f=1.5x', 'zq_n=x&zq_n=3', 'zq_unused=%ff&zq_s=%ff', 'zq_f=nan&zq_n=1.5']
+QUERIES = ['', 'zq_n=7&zq_f=2.5&zq_s=x', 'zq_n=abc', 'zq_n=&zq_f=1.5x', 'zq_n=x&zq_n=3', 'zq_unused=%ff&zq_s=%ff', 'zq_f=nan&zq_n=1.5',
+           # the profiler's secondary parameter without its trigger; look-alikes of the trigger
+           '_prof_sort=latest', '_prof_sort=', '_prof_sort=time&zq_n=1', '_profile=1&prof=1', '_PROF=true']
 COOKIES = [None, 'clastic_cookie=garbage', 'clastic_cookie="eyJhIjoxfQ==?expires=x&k=v"', 'clastic_cookie=; other=1', 'clastic_cookie=\xff\xfe?a', 'a=b; clastic_cookie=x?y=z=w']
 SCRIPTS = ['', '/mnt', '/a b/\xc3\xa9']
 FORMS = [b'x=hello+world&y=2', b'x=1&zp_n=abc&zq_unused2=v', b'zp_n=&zp_f=--1', b'zp_n=12&zp_f=1e3&x=%ff']
@@ -264,7 +266,7 @@ def strategy():
     from hypothesis import strategies as st
     return st.tuples(st.lists(st.sampled_from(MWS), min_size=1, max_size=4, unique=True), st.sampled_from(['app', 'app', 'route']),
                      st.sampled_from(SCENARIOS), st.sampled_from(['GET', 'GET', 'HEAD', 'POST']), st.sampled_from(ENCODINGS),
-                     st.one_of(st.just(0), st.integers(0, 83)))
+                     st.one_of(st.just(0), st.integers(0, 143)))
 
 
 def shards(tier, seed):
@@ -281,10 +283,12 @@ def run_shard(spec, ctx):
                  for method in ('GET', 'HEAD') for enc in ENCODINGS]
         # the parameter extractors: every query string / form body as well
         cases += [[[mw], level, sc, method, None, q] for mw in spec['mws'] if 'param' in mw or 'postdata' in mw
-                  for level in ('app', 'route') for sc in SCENARIOS for method in ('GET', 'HEAD', 'POST') for q in range(1, 28)]
+                  for level in ('app', 'route') for sc in SCENARIOS for method in ('GET', 'HEAD', 'POST') for q in range(1, 49)]
         # the signed cookie and script root: every request cookie (garbage, malformed, foreign) / SCRIPT_NAME
         cases += [[[mw], level, sc, method, None, q] for mw in spec['mws'] if mw in ('cookie', 'scriptroot')
                   for level in ('app', 'route') for sc in SCENARIOS for method in ('GET', 'HEAD') for q in range(1, 19)]
+        cases += [[[mw], level, sc, method, None, q] for mw in spec['mws'] if mw == 'profile'
+                  for level in ('app', 'route') for sc in SCENARIOS for method in ('GET', 'HEAD', 'POST') for q in range(1, len(QUERIES))]
         ctx.loop(cases, body, kind='case', max_sigs=12)
     else:
         ctx.hyp(strategy(), body, spec['n'], kind='case')
